@@ -20,6 +20,8 @@ Mirrors (hand-written, tied to the code by `harness/c17.py`):
                                                                      → `invertSuffX`, `fromSuffX`, `weightedStatsT`, `projectWX`, `projectX`, `M.projectX`
 * `NaturalNormal.mean` (with its `np.nan_to_num`) → `Base.meanX`, `M.meanX`
 * `NormalMessage / NaturalNormal / GammaMessage .from_mode` (scalar variance) → `fromMode`
+* `sum_natural_parameters / sub_natural_parameters` of a two-element message with a scalar message (numpy's
+  broadcasting along the wrong axis, known finding) → `Base.mulB`, `Base.divB`
 * `TransformedMessage.__init__` (flattening of a transformed base message) → `M.wrap`
 
 `expectedStats` is the closed form of `E[t(x)]` under a member (digamma expressions for Gamma / Beta):
@@ -275,6 +277,25 @@ end
 itself transformed is flattened - its transforms come first, the new ones are applied on top -/
 def M.wrap {K : Type} (m : M K) (trs : List (Tr K)) (id : Option Nat) (lower upper : K) : M K :=
   .transformed { base := m.base, trs := m.trs ++ trs, id := id, lower := lower, upper := upper }
+
+/-! ## an array message combined with a scalar message (known finding `C17-mixed-shape-broadcast`, as the code behaves) -/
+
+section
+variable {K : Type} [Add K] [Sub K] [Mul K] [Div K] [Neg K] [OfNat K 0] [OfNat K 1] [OfNat K 2]
+
+/-- element `j` (0 or 1) of `a * b` when `a` has two elements and `b` is a scalar message of the same class: numpy
+aligns the `(2,)` natural-parameter vector of `b` with the *element* axis of `a`'s `(2, 2)` array, so element `j`
+receives `b`'s `j`-th natural parameter in both of its own (other lengths raise `ValueError`) -/
+def Base.mulB (fn : Fn K) (a : Base K) (eb : K × K) (j : Nat) : Base K :=
+  let e := if j = 0 then eb.1 else eb.2
+  a.mul fn (e, e)
+
+/-- element `j` of `a / b` for the same shapes -/
+def Base.divB (fn : Fn K) (a : Base K) (eb : K × K) (logNormB : K) (j : Nat) : Base K :=
+  let e := if j = 0 then eb.1 else eb.2
+  a.div fn (e, e) logNormB
+
+end
 
 /-! ## the `Float` instance the driver runs -/
 
